@@ -93,12 +93,10 @@ static ref_ub4 ref_lookup2_hash(const ref_ub1 *k, ref_ub4 length, ref_ub4 initva
     return c;
 }
 
-/* [LOOKUP2] hash2(): key is an array of ub4, length in ub4s.  The words are given
- * here by their bytes in little-endian order (this host), so that the reference is a
- * function of the key BYTES. */
-#define REF_WORD_LE(k, i) ((ref_ub4) (k)[4 * (i)] | ((ref_ub4) (k)[4 * (i) + 1] << 8) | \
-                           ((ref_ub4) (k)[4 * (i) + 2] << 16) | ((ref_ub4) (k)[4 * (i) + 3] << 24))
-static ref_ub4 ref_lookup2_hash2(const ref_ub1 *k, ref_ub4 length, ref_ub4 initval, ref_ub4 init)
+/* [LOOKUP2] hash2(): "the key is an array of ub4's", length in ub4s.  As in the publication
+ * the words are read from memory as ub4 (so, as a function of the key BYTES, in the byte order
+ * of the host: little endian here). */
+static ref_ub4 ref_lookup2_hash2(const ref_ub4 *k, ref_ub4 length, ref_ub4 initval, ref_ub4 init)
 {
     ref_ub4 a, b, c, len;
 
@@ -106,17 +104,17 @@ static ref_ub4 ref_lookup2_hash2(const ref_ub1 *k, ref_ub4 length, ref_ub4 initv
     a = b = init;
     c = initval;
     while (len >= 3) {
-        a += REF_WORD_LE(k, 0);
-        b += REF_WORD_LE(k, 1);
-        c += REF_WORD_LE(k, 2);
+        a += k[0];
+        b += k[1];
+        c += k[2];
         ref_mix(a, b, c);
-        k += 12;            /* three ub4s */
+        k += 3;
         len -= 3;
     }
     c += length;
     switch (len) {              /* all the case statements fall through */
-        case 2: b += REF_WORD_LE(k, 1);
-        case 1: a += REF_WORD_LE(k, 0);
+        case 2: b += k[1];
+        case 1: a += k[0];
             /* case 0: nothing left to add */
     }
     ref_mix(a, b, c);
